@@ -1,6 +1,6 @@
 (* C17 — property theorems only.  Each is closed by `exact` of a lemma of C17_Proofs.v. *)
 From Coq Require Import List NArith Bool Relations.
-From Dae Require Import C17_Spec C17_Model C17_MergeSpec C17_Proofs.
+From Dae Require Import C17_Spec C17_Model C17_MergeSpec C17_Schema C17_Build C17_ProofsBuild C17_Proofs.
 From Dae.gen Require Import Extracted_C17.
 Import ListNotations.
 Open Scope N_scope.
@@ -69,6 +69,56 @@ Theorem C17_build_never_crashes :
   forall n ds, (forall i, In i ds -> i < n) -> build_userspace n ds <> WCrashed.
 Proof. exact C17_build_never_crashes_proof. Qed.
 Print Assumptions C17_build_never_crashes.
+
+(* Building the typed configuration (model of config.New over ANY schema and ANY decode oracle): an accepted
+   configuration has every required section, names no unknown section, and each of its sections passed the
+   section parser; an accepted struct section has no text without a key, no unknown key (parameter or nested
+   section), routing rules only where the struct takes them, and every required key - so any of these
+   defects is answered with an error. *)
+Theorem C17_build_contract :
+  forall schema decodes tops secs,
+    build schema decodes tops secs = BOk ->
+    (forall t, In t tops -> t_required t = true -> exists items, lookup_last secs (t_name t) None = Some items) /\
+    (forall s, In s secs -> str_eqb (fst s) C17_Build.include_name = true \/
+                            exists t, In t tops /\ str_eqb (t_name t) (fst s) = true) /\
+    (forall t items, In t tops -> lookup_last secs (t_name t) None = Some items ->
+       exists fuel, section_error schema decodes fuel (t_kind t) items = None).
+Proof. exact build_contract. Qed.
+Print Assumptions C17_build_contract.
+
+Theorem C17_struct_section_contract :
+  forall schema decodes fuel sid st items,
+    find_struct schema sid = Some st ->
+    section_error schema decodes fuel (KStruct sid) items = None ->
+    struct_items_ok st items.
+Proof. exact struct_section_contract. Qed.
+Print Assumptions C17_struct_section_contract.
+
+Theorem C17_nested_section_contract :
+  forall schema decodes fuel sid st items n sub f,
+    find_struct schema sid = Some st ->
+    section_error schema decodes fuel (KStruct sid) items = None ->
+    In (GSection n sub) items -> find_field (s_fields st) n = Some f ->
+    exists fuel', section_error schema decodes fuel' (f_kind f) sub = None.
+Proof. exact nested_section_contract. Qed.
+Print Assumptions C17_nested_section_contract.
+
+(* Documented defaults: a key that is not written takes the default of the schema; a written one takes its
+   last assignment. *)
+Theorem C17_default_applied :
+  forall schema sid st f items k,
+    find_struct schema sid = Some st -> find_field (s_fields st) k = Some f ->
+    (forall p, In (GParamI p) items -> str_eqb (gp_key p) k = false) ->
+    effective_string schema sid items k = f_default f.
+Proof. exact default_applied. Qed.
+Print Assumptions C17_default_applied.
+
+Theorem C17_last_assignment_wins :
+  forall schema sid st f items p,
+    find_struct schema sid = Some st -> find_field (s_fields st) (gp_key p) = Some f ->
+    effective_string schema sid (items ++ [GParamI p]) (gp_key p) = Some (gp_val p).
+Proof. exact last_assignment_wins. Qed.
+Print Assumptions C17_last_assignment_wins.
 
 (* Non-vacuity: a tree using every production is well formed, and its spelling parses to its denotation. *)
 Example C17_nonvacuous :
